@@ -143,6 +143,13 @@ fn cert_sequence(seed: &[u8; 32], steps: &[usize]) -> Vec<(Version, Vec<u8>, Vec
 /// Batches on one real Responder; 'g' = a request from a receiving socket, 'x' = one whose return
 /// address cannot be sent to. Every datagram that arrives must carry a CERT that is a delegation
 /// signed by the long-term key under this protocol's context.
+#[cfg(feature = "no_responder_api")]
+fn responder_with_failed_sends(_v: Version, _batches: &[&str], _bad: std::net::SocketAddr) -> Result<Option<(String, String)>, String> {
+    crate::util::RESPONDER_API_SKIPPED.store(true, std::sync::atomic::Ordering::Relaxed);
+    Ok(None)
+}
+
+#[cfg(not(feature = "no_responder_api"))]
 fn responder_with_failed_sends(v: Version, batches: &[&str], bad: std::net::SocketAddr) -> Result<Option<(String, String)>, String> {
     use roughenough::config::MemoryConfig;
     use roughenough::responder::Responder;
@@ -473,9 +480,17 @@ pub fn run(ctx: &Ctx) -> Result<(), String> {
         let seed_hex = "9d61b19deffd5a60ba844af492ec2cc44449c5697b326919703bac031cae7f60";
         let seed: [u8; 32] = crypto::unhex(seed_hex).try_into().unwrap();
         let want_pk = crypto::public_key(&seed);
-        let modes: Vec<(&str, bool, bool, Source)> = vec![("plain", false, false, Source::File), ("health", true, false, Source::File), ("stats", false, true, Source::File), ("health+stats", true, true, Source::Env)];
+        let mut modes: Vec<(&str, bool, bool, Source)> = vec![("plain", false, false, Source::File), ("health", true, false, Source::File), ("stats", false, true, Source::File), ("health+stats", true, true, Source::Env)];
+        // the server built with the crate's other Cargo feature that builds offline ("fuzzing")
+        let fuzz_dir = std::env::var("VERIF_REPO_FUZZ_BIN").ok().map(std::path::PathBuf::from).filter(|d| d.join("roughenough-server").exists());
+        if fuzz_dir.is_some() {
+            modes.push(("plain/built-with-feature-fuzzing", false, false, Source::File));
+            modes.push(("stats/built-with-feature-fuzzing", false, true, Source::Env));
+        }
+        ctx.cov("feature_fuzzing_build", json!(if fuzz_dir.is_some() { "server built with --features fuzzing: run in 2 modes" } else { "not available (build of that variant failed or bin/check not used): not covered" }));
         par_for(modes.len(), 1, |k, _| {
             let (name, health, stats, src) = modes[k];
+            crate::proc::BIN_DIR_OVERRIDE.with(|o| *o.borrow_mut() = if name.ends_with("feature-fuzzing") { fuzz_dir.clone() } else { None });
             let n = 4usize;
             let dir = crate::proc::scratch_dir();
             for _attempt in 0..3 {
@@ -517,6 +532,7 @@ pub fn run(ctx: &Ctx) -> Result<(), String> {
                 sp.kill();
                 break;
             }
+            crate::proc::BIN_DIR_OVERRIDE.with(|o| *o.borrow_mut() = None);
             let _ = std::fs::remove_dir_all(&dir);
         });
         if let Some(e) = failed.lock().unwrap().take() {
@@ -528,7 +544,7 @@ pub fn run(ctx: &Ctx) -> Result<(), String> {
     ctx.cov("reply_certs_checked", json!(certs_seen.load(Relaxed)));
     ctx.cov("restart_seeds", json!(seeds.len()));
     ctx.cov("exhaustive", json!(true));
-    ctx.cov("rule", json!("key part: per seed of the structured alphabet (zero, ff, RFC 8032 vectors, single-bit, single-byte-value, seeded random) three constructions give public key == Ed25519(seed) (dalek direct, RFC 8032 anchored) and SRV == SHA-512(0xff||pk)[0..32]; all sequences of length <= L over {make_cert(classic), make_cert(ietf)} x {fresh online key, online key A again, online key B again} on ONE LongTermKey, each CERT = DELE{PUBK(the online key),MINT,MAXT} signed under that version's delegation context and NOT verifying under the other version's. Live part: per seed 4 restarts of a real in-process Server (two with fault_percentage 0, two with 50; replies parsed leniently so that deliberately invalid ones are examined too) x event histories (C09 alphabet); the announced key equals the reference key; the CERT of every datagram emitted by either responder passes the same check and its window contains the reply's MIDP; and the real Responder driven with batches in which some replies cannot be sent (unsendable return addresses): every reply that arrives, in that batch and all later ones, carries such a CERT. Process: the real server started from file and ENV with seeds whose hex spelling a YAML parser may read differently (all digits, leading zeros, exponent form, upper case): if it starts, it announces and certifies with the written seed's key; a 4-worker server in the modes plain / health-check port / per-client statistics / both (ENV): every worker's announcement and the replies of all workers verify under the seed's key. Non-trivial = a cert sequence or an emitted reply's CERT."));
+    ctx.cov("rule", json!("key part: per seed of the structured alphabet (zero, ff, RFC 8032 vectors, single-bit, single-byte-value, seeded random) three constructions give public key == Ed25519(seed) (dalek direct, RFC 8032 anchored) and SRV == SHA-512(0xff||pk)[0..32]; all sequences of length <= L over {make_cert(classic), make_cert(ietf)} x {fresh online key, online key A again, online key B again} on ONE LongTermKey, each CERT = DELE{PUBK(the online key),MINT,MAXT} signed under that version's delegation context and NOT verifying under the other version's. Live part: per seed 4 restarts of a real in-process Server (two with fault_percentage 0, two with 50; replies parsed leniently so that deliberately invalid ones are examined too) x event histories (C09 alphabet); the announced key equals the reference key; the CERT of every datagram emitted by either responder passes the same check and its window contains the reply's MIDP; and the real Responder driven with batches in which some replies cannot be sent (unsendable return addresses): every reply that arrives, in that batch and all later ones, carries such a CERT. Process: the real server started from file and ENV with seeds whose hex spelling a YAML parser may read differently (all digits, leading zeros, exponent form, upper case): if it starts, it announces and certifies with the written seed's key; a 4-worker server in the modes plain / health-check port / per-client statistics / both (ENV), and the server built with the Cargo feature `fuzzing` (plain, statistics): every worker's announcement and the replies of all workers verify under the seed's key. Non-trivial = a cert sequence or an emitted reply's CERT."));
     ctx.sample(json!({"kind":"certseq","mask":"0b0110","len":4,"versions":["classic","ietf13","ietf13","classic"]}));
     ctx.sample(json!({"kind":"restart","restarts":4,"events":["C0","I1","step"]}));
     ctx.assume("ed25519-dalek arithmetic trusted (RFC 8032 vectors); seeds are a structured alphabet, not all 2^256");
